@@ -347,14 +347,28 @@ func runInter(c InterCase) ev.Verdict {
 
 	want := sim.NormOutput(dialogue)
 
+	// the dialogue is compared modulo blanks at line ends (whether the result is right-trimmed
+	// line by line is C01's business, not this property's)
+	rtrim := func(x string) string {
+		ls := strings.Split(x, "\n")
+		for i := range ls {
+			ls[i] = strings.TrimRight(ls[i], " ")
+		}
+
+		return strings.Join(ls, "\n")
+	}
+
+	got := rtrim(r.Result)
+	want = rtrim(want)
+
 	if c.EarlyAfter >= 0 && c.CompleteLiteral {
 		// the operation is complete once the refusal line has been shown; the prompt the device
 		// redraws after it may or may not have been read by then
 		upTo := want[:strings.Index(want, refusal)+len(refusal)]
-		if !strings.Contains(r.Result, upTo) {
+		if !strings.Contains(got, upTo) {
 			return ev.Fail("result %q does not contain the dialogue up to the completion line %q", r.Result, upTo)
 		}
-	} else if !strings.Contains(r.Result, want) {
+	} else if !strings.Contains(got, want) {
 		// "contains the whole dialogue" (what else the result may hold, e.g. stale bytes of the
 		// previous exchange, is not limited by the statement)
 		return ev.Fail("result %q does not contain the whole dialogue %q", r.Result, want)
